@@ -104,13 +104,14 @@ class NCfg:
         self.ops = ['f1', 's']
         self.ckpt_dir = None
         self.inv32 = False                           # second-order data in float32, factors in float64
+        self.empty_stage = None                      # index of a pipeline stage without K-FAC layers (set after pp is known)
         self.hook = rng.random() < 0.7               # update_factors_in_hook
         self.accum = rng.choice([1, 1, 2, 3])        # accumulation_steps: every 'f1' below stands for `accum` passes
         self._expanded = False
         for k, v in force.items():
             setattr(self, k, v)
-        if self.din % 1:
-            pass
+        if self.pp > 1 and 'empty_stage' not in force and rng.random() < 0.15:
+            self.empty_stage = rng.randrange(self.pp)
 
     @property
     def world(self):
@@ -136,6 +137,8 @@ def full_layers(cfg, stage):
     """the unsharded layers of a pipeline stage (same on every rank): list of (kind, weight, bias)"""
     g = torch.Generator().manual_seed(cfg.seed * 31 + stage)
     layers = []
+    if getattr(cfg, 'empty_stage', None) == stage:
+        return layers              # a pipeline stage without any layer K-FAC registers (embedding / norm only)
     d = cfg.din
     for _ in range(cfg.blocks):
         wc = torch.randn(cfg.hidden, d, generator=g, dtype=DT) / 2
@@ -195,6 +198,8 @@ def run_real(cfg, sched_seed=0):
             klist.append(kind)
             if kind == 'col':
                 mods.append(torch.nn.Tanh())
+        if not mods:
+            mods.append(torch.nn.Tanh())        # the stage still holds (unregistered) modules
         model = PipelineModule(layers=mods, topology=topo, layer_offset=co.pipe * 3 * cfg.blocks)
         import warnings
 
@@ -223,6 +228,8 @@ def run_real(cfg, sched_seed=0):
             if op == 'f1':
                 x = stage_input(cfg, co.pipe, co.data, npass)
                 npass += 1
+                if not any(True for _ in model.parameters()):
+                    x.requires_grad_(True)      # a stage without parameters still runs forward/backward
                 y = model(x)
                 (y * y).mean().backward()
             elif op == 's':
@@ -339,7 +346,11 @@ def reference(cfg, loads=None):
         npass = 0
         gsum = None
         for op in cfg.ops:
-            if op == 'f1':
+            if op == 'f1' and nl == 0:
+                ref.fwd_bwd({})
+                gsum = []
+                npass += 1
+            elif op == 'f1':
                 covs = {}
                 gacc = [None] * nl
                 for d in range(cfg.dp):
